@@ -198,6 +198,67 @@ func amplificationSeeds() []seed {
 	return out
 }
 
+// jpegStructureSeeds are JPEG streams whose marker structure is unusual: bare SOI / EOI markers between the
+// segments (nested and closed images), metadata after an EOI, stand-alone markers (TEM, RSTn) that carry no
+// length.  What the scanner makes of them is its business; it must make the same of them whatever it scanned
+// before, whatever the log level, and without crashing or spinning.
+var jpegStructureCache []seed
+
+func jpegStructureSeeds() []seed {
+	if jpegStructureCache != nil {
+		return jpegStructureCache
+	}
+	base, _ := gen.BuildJPEG(nil, true) // SOI + image tail
+	tail := base.B[2:]
+	minMM := gen.EncodeTIFF(gen.MinimalRecord(), gen.CanonicalLayout(), binary.BigEndian, gen.AllDirs)
+	seg := func(m byte, p []byte) []byte {
+		return append([]byte{0xff, m, byte((len(p) + 2) >> 8), byte(len(p) + 2)}, p...)
+	}
+	type tok struct {
+		name string
+		b    []byte
+	}
+	toks := []tok{
+		{"SOI", []byte{0xff, 0xd8}},
+		{"EOI", []byte{0xff, 0xd9}},
+		{"Exif", seg(0xe1, append([]byte(gen.ExifPrefix), minMM.B...))},
+		{"XMP", seg(0xe1, append([]byte(gen.XMPPrefix), []byte("<x:xmpmeta xmlns:x=\"adobe:ns:meta/\"><rdf:RDF xmlns:rdf=\"http://www.w3.org/1999/02/22-rdf-syntax-ns#\"><rdf:Description xmlns:xmp=\"http://ns.adobe.com/xap/1.0/\" xmp:Rating=\"3\"/></rdf:RDF></x:xmpmeta>")...))},
+		{"COM", seg(0xfe, []byte("comment"))},
+	}
+	standalone := []tok{{"TEM", []byte{0xff, 0x01}}, {"RST0", []byte{0xff, 0xd0}}, {"RST7", []byte{0xff, 0xd7}}}
+	var out []seed
+	var rec func(names []string, b []byte, depth int, alphabet []tok)
+	rec = func(names []string, b []byte, depth int, alphabet []tok) {
+		if len(names) > 0 {
+			data := append(append([]byte{0xff, 0xd8}, b...), tail...)
+			out = append(out, seed{name: fmt.Sprintf("JPEG structure SOI %v image", names), kind: "jpeg", doc: &gen.Doc{B: data}, gen: true})
+		}
+		if depth == 0 {
+			return
+		}
+		for _, t := range alphabet {
+			rec(append(append([]string{}, names...), t.name), append(append([]byte{}, b...), t.b...), depth-1, alphabet)
+		}
+	}
+	rec(nil, nil, 3, toks)
+	// a stand-alone marker in front of, between and behind one or two ordinary tokens
+	for _, sa := range standalone {
+		for _, t1 := range toks {
+			for pos := 0; pos < 2; pos++ {
+				names := []string{sa.name, t1.name}
+				b := append(append([]byte{}, sa.b...), t1.b...)
+				if pos == 1 {
+					names = []string{t1.name, sa.name}
+					b = append(append([]byte{}, t1.b...), sa.b...)
+				}
+				rec(names, b, 1, toks)
+			}
+		}
+	}
+	jpegStructureCache = out
+	return out
+}
+
 // degenerateRecords are TIFF blocks holding a single supported field whose value is cut down to a
 // shape its parser does not expect (count 0, a string or date of 1..3 characters, a rational without
 // its second half): the value then sits in the 4-byte slot although the parser was written for an
